@@ -38,7 +38,7 @@ lazy_static! {
 
 fn _construct_fen_regex() -> Regex {
     #[allow(clippy::unwrap_used)]
-    Regex::new(r"^([PNBRQKpnbrqk1-8]{1,8}(?:/[PNBRQKpnbrqk1-8]{1,8}){7}) ([bw]) (KQ?k?q?|Qk?q?|kq?|q|-) ([a-h][1-8]|-)(?: (\d+) (\d+))?$").unwrap()
+    Regex::new(r"^([PNBRQKpnbrqk1-8]{1,8}(?:/[PNBRQKpnbrqk1-8]{1,8}){7}) ([bw]) (KQ?k?q?|Qk?q?|kq?|q|-) ([a-h][1-8]|-)(?: ([0-9]+) ([0-9]+))?$").unwrap()
 }
 
 lazy_static! {
@@ -127,6 +127,12 @@ impl FromStr for Fen {
 
         #[allow(clippy::unwrap_used)]
         Self::validate_ranks(group_to_slice(1).map(|range| &fen[range.start..range.end]).unwrap())?;
+
+        for clock in [group_to_slice(5), group_to_slice(6)].into_iter().flatten() {
+            if fen[clock].parse::<u32>().is_err() {
+                return Err(InvalidCapture(fen.clone()));
+            }
+        }
 
         Ok(
             #[allow(clippy::unwrap_used)]
